@@ -20,6 +20,8 @@ ENGINES = {
     'streamsim': 'engines.streamsim',
     'eqsim': 'engines.eqsim',
     'eqsim_ll': 'engines.eqsim_ll',
+    'rxnsim': 'engines.rxnsim',
+    'sepsim': 'engines.sepsim',
 }
 
 KNOWN_FINDINGS = os.path.join(env.VERIF_ROOT, 'known_findings.json')
